@@ -39,6 +39,11 @@ pub const QUERY_POOL: &[&str] = &[
     "(list (_)* @items) @lst",
     "(function_definition parameters: (parameters (_)? @p0)) @fn",
     "(_) @any",
+    // one capture name with four different quantifiers (per-stanza resolution of quantifiers)
+    "(expression_statement (_) @x) @st",
+    "(argument_list (_)* @x) @al",
+    "(return_statement (_)? @x) @r2",
+    "(block (_)+ @x) @b2",
 ];
 
 #[derive(Clone, Debug)]
@@ -585,7 +590,12 @@ impl<'a> Gen<'a> {
             let e = match self.r.below(5) {
                 0 => cur.clone(),
                 1 => format!("[{}]", cur),
-                2 => format!("(format \"{{}}\" {})", cur),
+                2 => match self.r.below(4) {
+                    0 => format!("(format \"{{}}\" {})", cur),
+                    1 => format!("(format \"{{}}{{}}\" {} 1)", cur),
+                    2 => format!("(replace {} \"a\" \"b\")", cur),
+                    _ => format!("(eq {} 1 2)", cur),
+                },
                 3 => format!("{{{}, 1}}", cur),
                 _ => format!("[ zq for zq in [1] ]").replace("[ zq for", &format!("[ {} for", cur)),
             };
@@ -881,8 +891,24 @@ impl<'a> Gen<'a> {
                 self.feature("if");
                 let mut out = String::new();
                 let arms = self.r.range(1, 3);
+                // a boolean whose name merely begins with a condition keyword, used as a bare condition (C07)
+                let mut kw_cond: Option<String> = None;
+                if self.opts.keywordish_names && self.r.chance(1, 2) {
+                    self.counter += 1;
+                    let name = format!("{}{}{}", self.r.pick(&["some", "none"]), self.r.pick(&["1", "-flag", "_x", "thing", "0a", "-", "-1", "2-"]), self.counter);
+                    if !self.name_taken(&name) {
+                        self.declare(&name, Ty::Bool, false, true, false, false);
+                        out.push_str(&format!("{}let {} = #true\n", pad, name));
+                        self.feature("keyword-prefixed-condition");
+                        kw_cond = Some(name);
+                    }
+                }
                 for i in 0..arms {
-                    let cond = self.conditions(d);
+                    let cond = match (&kw_cond, i) {
+                        (Some(n), 0) => n.clone(),
+                        (Some(n), 1) => format!("{}, {}", self.conditions(d), n),
+                        _ => self.conditions(d),
+                    };
                     let kw = if i == 0 { "if" } else { "elif" };
                     out.push_str(&format!("{}{} {} {{\n{}{}}}", if i == 0 { pad.clone() } else { " ".to_string() }, kw, cond, self.block(d, indent + 1, vec![]), pad));
                 }
@@ -1020,7 +1046,10 @@ pub fn gen_program(r: &mut Rng, pool: &[Pattern], opts: &Opts) -> Program {
             }
         }
     }
-    if g.r.chance(1, 3) {
+    // nested definers of an inherited variable: the nearest defining ancestor must win, and ancestors that only
+    // carry other scoped variables must be walked through (C02, C04)
+    let nested_definers = opts.scoped_heavy && g.r.chance(1, 2);
+    if g.r.chance(1, 3) || nested_definers {
         g.feature("inherit");
         text.push_str("inherit .val\n");
     }
@@ -1055,6 +1084,11 @@ pub fn gen_program(r: &mut Rng, pool: &[Pattern], opts: &Opts) -> Program {
         // every identifier links to its parent-most enclosing statement-ish node through captures of other stanzas
         stanzas.push("(identifier) @id {\n  let @id.val = (source-text @id)\n  node @id.def\n}\n".to_string());
         stanzas.push("(call function: (_) @f) @c {\n  let @c.link = @f\n}\n".to_string());
+        if nested_definers {
+            g.feature("nested-definers");
+            stanzas.push("[(function_definition) (class_definition) (if_statement) (for_statement) (block) (call) (argument_list) (list) (assignment)] @nest {\n  let @nest.val = (node-type @nest)\n}\n".to_string());
+            stanzas.push("[(integer) (string) (pass_statement) (true) (false) (none)] @leaf {\n  node lf\n  attr (lf) inherited = @leaf.val, at = (start-row @leaf), col = (start-column @leaf)\n}\n".to_string());
+        }
     }
     let n_stanzas = g.r.range(1, opts.max_stanzas.max(1));
     let fault_stanza = if opts.static_fault != 0 { g.r.below(n_stanzas) } else { 0 };
